@@ -341,7 +341,6 @@ Section OrchProofs.
     intros I Hm i Hi. destruct (o_sync_ok s I i Hi) as [?|[H|H]]; [assumption|congruence|congruence].
   Qed.
 
-  Theorem failed_has_failing_sync s :
-    OInv s -> mode s = OFailed -> True.
-  Proof. trivial. Qed.
+  (* what OFailed means (a started synchronous step finished with a non-zero status), both ways: Orch/TraceOracle.v
+     failed_has_failing_sync / failing_sync_fails *)
 End OrchProofs.
